@@ -192,14 +192,20 @@ ASSUMPTIONS += ["term objects inside a Model are opaque values; == on them is mo
 INV_O = [c.replace("self.", "other.") for c in INV_M]
 OTHER_OK = ["forall(0, len(other.common_terms), lambda k: is_a(other.common_terms[k], 'Term') or is_a(other.common_terms[k], 'Intercept'))"]
 REG.contract(T + "Model.__add__#model", of=T + "Model.__add__", params={"other": T + "Model"}, returns=T + "Model", tags=["C02"],
-             requires=INV_M + INV_O + OTHER_OK, modifies=["self.common_terms", "self.group_terms"],
+             # (the right operand may hold a term twice - Model(*terms) does not drop repeats; the union does)
+             requires=INV_M + INV_O[2:] + OTHER_OK, modifies=["self.common_terms", "self.group_terms"],
              ensures=INV_M_POST + [
                  "result == self",
                  "forall_obj(lambda x: (x in self.common_terms) == ((x in old(self.common_terms)) or (x in other.common_terms)))",
                  "forall_obj(lambda x: (x in self.group_terms) == ((x in old(self.group_terms)) or (x in other.group_terms)))",
-                 "forall(0, old(len(self.common_terms)), lambda k: self.common_terms[k] == old(self.common_terms)[k])"],
+                 "forall(0, old(len(self.common_terms)), lambda k: self.common_terms[k] == old(self.common_terms)[k])",
+                 # (a consequence of the union above, stated by position so that a caller holding other.common_terms[k] gets the fact)
+                 "forall(0, len(other.common_terms), lambda k: other.common_terms[k] in self.common_terms)",
+                 "forall(0, len(self.common_terms), lambda k: (self.common_terms[k] in old(self.common_terms)) or (self.common_terms[k] in other.common_terms))",
+                 "len(self.group_terms) <= old(len(self.group_terms)) + len(other.group_terms)"],
              loops={1: Loop(invariant=INV_M + [
                  "0 <= _i1", "_i1 <= len(other.common_terms) + len(other.group_terms)",
+                 "len(self.group_terms) <= old(len(self.group_terms)) + (_i1 - len(other.common_terms) if _i1 > len(other.common_terms) else 0)",
                  "old(len(self.common_terms)) <= len(self.common_terms)",
                  "forall(0, old(len(self.common_terms)), lambda k: self.common_terms[k] == old(self.common_terms)[k])",
                  "forall_obj(lambda x: (x in self.common_terms) == ((x in old(self.common_terms)) or "
@@ -231,7 +237,11 @@ REG.contract(T + "Model.__init__", params={"terms": "list[any]", "response": "an
              ensures=["self.response is None",
                       # the terms are split by kind, order kept, nothing added or lost
                       "forall_obj(lambda x: (x in self.common_terms) == (x in terms and not is_a(x, 'GroupSpecificTerm')))",
-                      "forall_obj(lambda x: (x in self.group_terms) == (x in terms and is_a(x, 'GroupSpecificTerm')))"])
+                      "forall_obj(lambda x: (x in self.group_terms) == (x in terms and is_a(x, 'GroupSpecificTerm')))",
+                      # (the same by position)
+                      "forall(0, len(terms), lambda k: implies(not is_a(terms[k], 'GroupSpecificTerm'), terms[k] in self.common_terms))",
+                      "forall(0, len(self.common_terms), lambda k: self.common_terms[k] in terms)",
+                      "implies(forall(0, len(terms), lambda k: not is_a(terms[k], 'GroupSpecificTerm')), len(self.group_terms) == 0)"])
 FUNCTIONS += [T + "Model.__init__"]
 
 
